@@ -31,12 +31,13 @@ func (r *SplitMix) Bytes(n int) []byte {
 }
 
 // Content produces file content of a class. Classes:
-//   uniq      high-entropy bytes in 0x01..0x7f (never zero, disjoint from Garbage's 0x80..0xff)
-//   zero      all zero bytes
-//   periodic  period-3 pattern
-//   dupslice  slice 0 repeated at slice 2 (if long enough)
-//   trailzero uniq with the last min(n, s) bytes zero
-//   crccollide two different slices with equal CRC-32
+//
+//	uniq      high-entropy bytes in 0x01..0x7f (never zero, disjoint from Garbage's 0x80..0xff)
+//	zero      all zero bytes
+//	periodic  period-3 pattern
+//	dupslice  slice 0 repeated at slice 2 (if long enough)
+//	trailzero uniq with the last min(n, s) bytes zero
+//	crccollide two different slices with equal CRC-32
 func Content(class string, seed int64, fileIdx, n, sliceSize int) []byte {
 	r := NewRand(uint64(seed)*0x1000193 + uint64(fileIdx)*0x9e3779b1 + 7)
 	switch class {
